@@ -637,6 +637,18 @@ func c05Stream(o *out, r *rng, thorough bool) {
 		}
 		runWithOracle(o, t, true, reqs, fmt.Sprintf("rw%d", i), nil)
 	}
+	// the served root itself, in every spelling that cleans to it, on an empty and on a populated root:
+	// it must never be removed (nor "deleted"), and it is still there afterwards
+	for i, spelling := range []string{"/", "", "/..", "/x/../..", "/.", "//", "/../.."} {
+		t := &tree{}
+		t.add(tnode{path: "/", kind: 'd', mtime: genMtime(r)})
+		if i%2 == 1 {
+			t.add(tnode{path: "/keep.bin", kind: 'f', size: 10, seed: 1, mtime: genMtime(r)})
+		}
+		reqs := []creq{{op: opRmdir, path: spelling}, {op: opDeleteFile, path: spelling}, {op: opStatFile, path: "/"}, {op: opOpenDir, path: "/"}, {op: opReadDir}}
+		o.count("rw:root-spelling")
+		runWithOracle(o, t, true, reqs, fmt.Sprintf("rwroot%d", i), nil)
+	}
 }
 
 func init() {
